@@ -906,8 +906,9 @@ func (interp *Interpreter) cfg(root *node, sc *scope, importPath, pkgName string
 				case src.action == aCompositeLit && (n.kind != defineStmt || isInterface(dest.typ)):
 					// A definition creates a new variable at each execution: do not build the
 					// value in place in that case, unless it is wrapped in an interface.
-					if dest.typ.cat == valueT && dest.typ.rtype.Kind() == reflect.Interface {
-						// Skip optimisation for assigned interface.
+					if isInterfaceBin(dest.typ) {
+						// Skip optimisation for an assigned interface of a binary package (error included):
+						// the literal is wrapped by the assign operation.
 						break
 					}
 					if dest.action == aGetIndex || dest.action == aStar {
